@@ -135,6 +135,24 @@ def run(ctx, w):
                 msg = "SGR %d decodes to %r leaving %d parameter(s); reference %r leaving 1" % (n, got, rest, want)
             ctx.check(ok, "G1a", "SGR %d" % n, msg, loc=w.fn_loc(ev.next_fn), sample={"param": n, "op": repr(got), "left": rest})
     ctx.floor("G1a", 60, "single SGR parameter classes")
+    if ctx.tier == "thorough":
+        ctx.rule("G1x", "thorough: every one of the 65536 single-valued SGR parameters individually (cross-checks the class partition)")
+        bad = 0
+        for n in range(65536):
+            try:
+                r, rest, it = ev.run([[n], [SENT]])
+                got = describe_op(r)
+            except H.Unsupported as e:
+                got, rest = ("unsupported", str(e)), -1
+            want = REF.sgr_single(n)
+            ok = (got == ("SetUnderline",) and rest == 0) if (want is None) else (got == want and rest == 1)
+            if not ok:
+                bad += 1
+                if bad <= 10:
+                    ctx.violation("G1x", "SGR %d" % n, "SGR %d decodes to %r leaving %d" % (n, got, rest), loc=w.fn_loc(ev.next_fn))
+        if not bad:
+            ctx.ok("G1x", "all", {"parameters": 65536})
+        ctx.rule_counts["G1x"] = 65536
 
     ctx.rule("G1b", "extended colours in ':' and ';' forms decode to the colour written, for both grounds, and consume exactly their parameters")
     Rr, Gg, Bb, Ii, Xx = SE.sym("r"), SE.sym("g"), SE.sym("b"), SE.sym("i"), SE.sym("x")
